@@ -285,7 +285,7 @@ SLICE_S = 4.0       # a worker gives the rest of a crash-heavy piece back to the
 
 def timeout_for(ncases, algo, grid="t"):
     """Generous (the machine is shared): only a genuine hang ever waits this long; deadlocks are reported by SimGrid at once."""
-    return min(30.0 + 0.1 * ncases * (25 if algo == "automatic" else 1), 60.0 if grid == "q" else 400.0)
+    return min(30.0 + 0.1 * ncases * (25 if algo == "automatic" else 1), 30.0 if grid == "q" else 400.0)
 
 
 def bad_kind(b):
@@ -415,7 +415,7 @@ def run_piece(task):
         kind, text = classify(res)
         if kind == "hang":
             # a timeout is a hang only if a case in progress also hangs alone; otherwise the machine was just slow
-            alone = {cid: go([(cid, cid + 1)], 60.0) for cid in res.inprog}
+            alone = {cid: go([(cid, cid + 1)], 30.0 if grid == "q" else 60.0) for cid in res.inprog}
             if all(r.complete for r in alone.values()):
                 slow *= 3
                 if slow > 30:
@@ -453,7 +453,7 @@ def confirm(task):
     for cid in cids:
         got = []
         for _ in range(2):
-            r = run_ranges(binary, d, coll, algo, layout, grid, [(cid, cid + 1)], 120.0, tag, minsize=1 if nps[cid] == 1 else minsize)
+            r = run_ranges(binary, d, coll, algo, layout, grid, [(cid, cid + 1)], 30.0 if grid == "q" else 120.0, tag, minsize=1 if nps[cid] == 1 else minsize)
             if not r.complete:
                 k, t = classify(r)
             elif cid in r.bad:
